@@ -36,7 +36,20 @@ func c04Child(t *testing.T) {
 			syscall.Kill(os.Getpid(), syscall.SIGKILL)
 			select {} // never continue past the cut
 		}
-		fmt.Fprintf(mutLog, "%d %s\n", c, kind)
+		// kind, and which stored content (content id) the mutation belongs to
+		id := "-"
+		switch kind {
+		case "create", "write", "close", "remove":
+			id = filepath.Base(key)
+		case "bset", "bdel":
+			switch {
+			case strings.HasPrefix(key, "fileContent/"):
+				kind, id = kind+"-cf", strings.TrimPrefix(key, "fileContent/")
+			case strings.HasPrefix(key, "file/"):
+				kind, id = kind+"-rec", strings.TrimPrefix(key, "file/")
+			}
+		}
+		fmt.Fprintf(mutLog, "%d %s %s\n", c, kind, id)
 	})
 	im := newSeqImpl(filepath.Join(base, "db"), 2)
 	if err := im.open(); err != nil {
@@ -179,6 +192,9 @@ func TestVerifC04(t *testing.T) {
 		child(full, "work", 0, opsPath)
 		nm, _ := strconv.Atoi(strings.TrimSpace(strings.Join(readLines(filepath.Join(full, "work.total")), "")))
 		wfile = append(wfile, map[string]any{"workload": w, "ops": ops, "mutations": nm})
+		if b, err := os.ReadFile(filepath.Join(full, "work.muts")); err == nil {
+			os.WriteFile(filepath.Join(out, fmt.Sprintf("c04.muts.%d", w)), b, 0o644)
+		}
 		os.RemoveAll(full)
 		var wg sync.WaitGroup
 		sem := make(chan struct{}, 8)
